@@ -48,7 +48,7 @@ def _to_regex(value):
         return re.compile(value)
 
 
-_string_prefix = r"'(?:\\.|[^'])*"
+_string_prefix = r"'(?:\\.|[^'\\])*"
 _identifier_character = r"(?:[a-zA-Z\-_]|\\.)"
 
 tokenise = regex_tokeniser([
